@@ -85,6 +85,13 @@ def design_c18(rep, tier):
     r = common.design_check("StatsMerge", "MC_StatsMerge.cfg", workers=8)
     rep.add_model(r, role="design: per-batch statistics with differing key sets accumulate to the sums, any partition")
     rep.add_model(common.neg_check("StatsMerge", "Neg_StatsMerge.cfg"), role="negative: keys missing in the accumulator are dropped")
+    # any number of batches, any counts: the invariant is inductive (Apalache, unbounded integers)
+    rep.add_model(common.apalache_check("StatsMergeInd", None, "Init", "IndInv", 0),
+                  role="apalache: Init => IndInv (merge_stats: every key holds the sum so far)")
+    rep.add_model(common.apalache_check("StatsMergeInd", None, "IndInit", "IndInv", 1),
+                  role="apalache: IndInv /\\ Merge => IndInv' for an arbitrary partial dictionary with arbitrary counts")
+    rep.add_model(common.apalache_check("StatsMergeInd", None, "IndInit", "IndInv", 1, expect_error=True, next_="NextDrop"),
+                  role="apalache negative: dropping keys that the accumulator lacks is not inductive")
     # spec -> code: every batch sequence of the replay bound through the real merge_stats
     res, states = common.tlc_dump_states("StatsMerge", "MC_StatsMerge_replay.cfg", workers=8)
     seqs = []
